@@ -17,6 +17,10 @@ SCALES = [
     ({"p2": Fraction(1, 2)}, "au::root<2>(au::mag<2>())"), ({"p5": Fraction(-1, 3)}, "au::root<3>(au::ONE / au::mag<5>())"),
     ({"p127": 1, "p3": 1}, "au::mag<381>()"), ({"p2147483647": 1}, "au::mag<2147483647>()"),
     ({"pi": 2}, "au::pow<2>(au::Magnitude<au::Pi>{})"),
+    # scalings by exactly one, and exact inverses of earlier entries (nested scalings must collapse correctly)
+    ({}, "au::ONE"), ({}, "au::mag<1>()"), ({}, "(au::mag<3>() / au::mag<3>())"),
+    ({"p2": -1}, "(au::ONE / au::mag<2>())"), ({"p3": -1}, "(au::ONE / au::mag<3>())"), ({"p2": 3}, "au::mag<8>()"),
+    ({"pi": -1}, "(au::ONE / au::Magnitude<au::Pi>{})"), ({"p7": -1, "p11": 1}, "(au::mag<11>() / au::mag<7>())"),
 ]
 
 
@@ -128,6 +132,10 @@ def gen_tree(rng, A, depth, pool):
         return ("div", gen_tree(rng, A, depth - 1, pool), gen_tree(rng, A, depth - 1, pool))
     if r < 0.85:
         return ("pow", gen_tree(rng, A, depth - 1, pool), rng.choice(POWS))
+    if rng.random() < 0.4:
+        # nested scaling of an (anonymous) scaled unit: by one, by the exact inverse, or by something else
+        inner = ("scale", gen_tree(rng, A, max(0, depth - 2), pool), rng.choice(SCALES))
+        return ("scale", inner, rng.choice(SCALES[-8:] if rng.random() < 0.7 else SCALES))
     return ("scale", gen_tree(rng, A, depth - 1, pool), rng.choice(SCALES))
 
 
